@@ -364,8 +364,8 @@ var (
 	c19NamePool  = []string{"x", "y", "z", "v", "n", "e1", "é", "世界", "ünï", "a_b", "X", "q"}
 	c19HdrNames  = []string{"a", "fix_1", "é", "世界", "_", "Name9", "x", "ab"}
 	c19Comments  = []string{"# pasted from a Windows editor\r", "#\r", "# comment", "#", "# @@", "#@ x @", "# var x expression", "  # indented", "\t#tab", "# -foo(x)", "#  é 世界"}
-	c19WS1       = []string{" ", " ", " ", " ", "  ", "\t", " \t", "   ", " ", " ", " ", " ", " /* c */ ", "/*line evil.go:100:1*/ ", " /*line :7*/"}
-	c19WS0       = []string{"", "", "", " ", "  ", "\t", "", "", "", "", "", "/*line evil.go:100:1*/", "/**/"}
+	c19WS1       = []string{" ", " ", " ", " ", "  ", "\t", " \t", "   ", " ", " ", " ", " ", " /* c */ ", "/*line evil.go:100:1*/ ", " /*line :7*/", " /* größer-als 世界 */ ", "/*é*/ "}
+	c19WS0       = []string{"", "", "", " ", "  ", "\t", "", "", "", "", "", "/*line evil.go:100:1*/", "/**/", "/*ü*/"}
 	c19HdrWS     = []string{"", "", "", " ", "  ", "\t"} // in a header only blanks separate
 	c19Indent    = []string{"", "", "", " ", "  ", "\t", "\t\t", " \t ", "    "}
 	c19AfterCom  = []string{" ", " ", " ", " ", "", "  ", "\t", "\n", "\n  ", "\n\t", "\n\n  ", "\n# wrapped\n "}
